@@ -535,6 +535,17 @@ def check_kind(mir, stage, err_path, res):
     for fn in stage:
         ex = Exprs(fn)
         for c in fn.calls():
+            # the same insertion through the entry API: the key is the key of `map.entry(key)`
+            if short_path(c.rpath or "").endswith("VacantEntry::insert") and c.args and c.args[0]["k"] in ("copy", "move") and not c.args[0]["pl"]["p"] and "ByteIndex" in fn.local_ty(c.args[0]["pl"]["l"])["s"] and "String" in fn.local_ty(c.args[0]["pl"]["l"])["s"]:
+                from ..mir import entry_of
+                mk_ = entry_of(ex.operand(c.args[0]))
+                if mk_ is not None:
+                    k_ = name_kind_interproc(mir, stage, fn, mk_[1])
+                    n_ins += 1
+                    res.inst(rule, "clash-insert|" + fn.path.rsplit("::", 1)[-1], c.where, True, "key kind %s (entry form)" % (sorted(k_) if k_ else None))
+                    if k_:
+                        kinds_in |= k_
+                continue
             if short_path(c.rpath or "").endswith(("HashMap::insert", "BTreeMap::insert")) and c.args and "ByteIndex" in (fn.local_ty(c.args[0]["pl"]["l"])["s"] if c.args[0]["k"] in ("copy", "move") and not c.args[0]["pl"]["p"] else "") and "String" in fn.local_ty(c.args[0]["pl"]["l"])["s"]:
                 k_ = name_kind_interproc(mir, stage, fn, ex.operand(c.args[1]))
                 n_ins += 1
